@@ -1,3 +1,39 @@
 """vcheck configuration of work group A: PROPS = {"Cxx": {"families": [fam("name", quick_n, thorough_n)], "defects": ["Dn"]}}"""
 
-PROPS = {}
+PROPS = {
+    "C05": {
+        "families": [
+            # regex core (shared with C03): real regexp.Compile + MatchString vs parseRE + search
+            fam("re", 1000, 10000),
+            fam("re.rules", 300, 1500),
+            # Go's own regexp/syntax tree of the compiled text, converted to Re, vs the real engine
+            fam("c05.tree", 600, 4000),
+            # rule.Match vs pattern-only acceptance on members of L(compiled tree)
+            fam("c05.url", 800, 5000),
+            # rule.Shortcut justified by the tree findRegexpShortcut consults (model) and by the compiled tree (spec)
+            fam("c05.shortcut", 600, 4000),
+            # findShortcut: the IndexAny loop vs model vs first-longest-run spec (exhaustive short token strings + sampled)
+            fam("c05.mask", 800, 6000),
+            # Go-only law on mask rules: compiled pattern accepts url => lower(url) contains Shortcut
+            fam("c05.maskurl", 400, 2000),
+        ],
+        "defects": ["D4"],
+        "rule": "op lines generated from VERIF_SEED: regexes from two grammars (alternation, groups, classes, escapes \\d \\w \\s \\b \\xHH, "
+                "quantifiers * + ? {m,n}, malformed stream) plus all regex rules of the bundled lists; subjects/URLs sampled from the parse "
+                "tree (members, near-misses, case flips); mask patterns exhaustively over short token strings over {a b * ^ | . /} and sampled "
+                "beyond; distinct by hash of the op input; non-trivial when the implementation's answer is not F/empty and the input is in "
+                "the model's domain",
+        "explanation": "Theorems (UF/Props/C05.lean): c05_re/c05_re_fold (required literals are factors of every accepted lower-cased subject), "
+                       "c05_justified, c05_regex_shortcut (any candidate list), c05_regex_rule/c05_regex_model, c05_mask_total/c05_mask_run/"
+                       "c05_mask_atoms/c05_mask_rule, c05 (Match is unchanged without the shortcut test). Correspondence: the regex semantics "
+                       "(Den/search) against the real engine on Go's own parse trees (c05.tree) and through the model parser (re, re.rules); "
+                       "every rule's Shortcut checked against the required literals of the compiled tree (c05.shortcut: hypothesis of "
+                       "c05_justified); rule.Match against pattern-only acceptance (c05.url); findShortcut against the loop model and the "
+                       "run spec (c05.mask).",
+        "assumptions": [
+            "ASCII subjects and patterns (non-ASCII lines are answered ood and counted); Go regexp/syntax is modelled, not verified: "
+            "its parse trees are taken as given and their semantics validated differentially (c05.tree)",
+            "the composition of the mask part with the mask compiler (maskAst, C03/group G) is stated as hypothesis `hcompiled` of c05_mask_rule",
+        ],
+    },
+}
